@@ -29,6 +29,7 @@ THEOREMS = [
     # historical, about format_summary before c070c47 (`formatSummaryOld`)
     "Docstring.summary_fallback_touches_source", "Docstring.summary_fallback_overwrites_class_summary",
     "Docstring.summary_failure_unreported_counterexample", "Docstring.blanked_docstring_fallback_counterexample",
+    "Docstring.field_failure_text_lost_counterexample",
     # the further wrappers (round 3)
     "Docstring.pyval_total", "Docstring.pyval_failure_reported", "Docstring.signature_total",
     "Docstring.signature_failure_reported", "Docstring.type_total", "Docstring.constant_total",
@@ -70,7 +71,8 @@ ASSUMPTIONS = [
     "termination and exception behaviour INSIDE the epytext/docutils/napoleon parsers and twisted's flattener is not proved; "
     "it is exercised by the real stream with a per-case alarm",
     "no ParsedDocstring subclass in /repo overrides get_summary/get_toc (checked by introspection each run)",
-    "objects have distinct full names (System.parse_errors is keyed by fullName())",
+    "objects have distinct full names (System.parse_errors and the reportErrors key use fullName()): FALSE at parse time for a class "
+    "defined twice in a module — open finding report:dedup-by-name:redefined-object-unreported, checked by the builder stream",
     "in format_docstring every field body whose handler formats it is formatted once, in call order; `type` fields: stored as "
     "parsed_type for an Attribute, formatted only with an argument elsewhere; `ivar/cvar/var` not formatted. The rest of the "
     "FieldHandler dispatch and the warnings filed through Field.report / 'Missing field name' are C09's (generators avoid "
@@ -182,6 +184,9 @@ class World:
             if src != [i] + INHERITED.get(i, []):
                 self.param_mismatch.append("docsources of %s are %r, the harness assumes %r" % (NAMES[i], src, [i] + INHERITED.get(i, [])))
         self.signatures = {i: self.objs[i].signature for i in FUNCS}
+        from docutils.parsers.rst import roles as _roles
+        self._rst_roles = dict(_roles._roles)     # docutils' module-level registry of document-defined roles
+        self.iso: Optional[Tuple[str, str]] = None
         self.node_stubs: Dict[int, int] = {}
         self.sig_now: Optional[str] = None
         self.stan_log: List[Any] = []
@@ -217,6 +222,10 @@ class World:
             self.objs[mi].docformat = None if f is None else ("doctest" if f == "u" and mi == 6 else FMT_OF[f])
         for i in FUNCS:
             self.objs[i].signature = self.signatures[i]
+        from docutils.parsers.rst import roles as _roles
+        _roles._roles.clear()                     # a leak from one CASE into the next must not blur the cases
+        _roles._roles.update(self._rst_roles)
+        self.iso = None
         self.node_stubs = {}
         self.sig_now = None
         self.reports = []
@@ -732,7 +741,8 @@ def canon_state(w: World, descr_token, pdname=None, only_report_errors: bool = T
             rt.append("%d.%d.%s.%d" % (i, SEC_NAMES[section], descr_token(descr[len(pre):]), off))
         elif not only_report_errors:
             rt.append("%d.%s.other" % (i, section))
-    keys = sorted((SEC_NAMES.get(sec, 99), w.ids.get(n, 99), 0 if ph == "parsing" else 1) for (sec, n, ph) in getattr(s, "reported_errors", ()))
+    keys = sorted((SEC_NAMES.get(sec, 99), w.ids.get(n if isinstance(n, str) else n.fullName(), 99), 0 if ph == "parsing" else 1)
+                  for (sec, n, ph) in getattr(s, "reported_errors", ()))
     ptok = ",".join("%d.%d.%s" % (a, b, "pr"[c]) for a, b, c in keys) or "-"
     m = "1" if any(sec == "epydoc2stan" for sec, _ in s.once_msgs) else "0"
     ot = " ".join("%d=%s/%s/%s" % (i, canon_pd(w, o.parsed_docstring, pdname), canon_pd(w, o.parsed_summary, pdname),
@@ -1314,7 +1324,7 @@ FRAGMENTS = {
                 "@note: a", "@unknownfield: z", "@param x y", "  - item", " - item", "1. one", "  2. two", ">>> print(1)",
                 "x::", "    literal", "Heading\n=======", "Sub\n---", "Short\n==========", "E{lb}", "E{zz}", "S{alpha}",
                 "S{nope}", "M{x^2}", "\t", "G{classtree}", "X{idx}", "L{}", "U{}", "@param x:\n   - a\n  - b", "@see: L{",
-                "@since", "@", "@:", "    @param deep: x", "C{L{I{B{x}}}}", "::"],
+                "@since", "@", "@:", "@param a: sep \x0c here", "@note: a \ufffe b", "@return: x \x0c", "    @param deep: x", "C{L{I{B{x}}}}", "::"],
     "restructuredtext": ["``x", "`x", "`x`_", "*x", "**x", "|x|", "x_", ".. foo::", ".. note::", ".. image::", ".. code:: python",
                          ":param x: y", ":type x: `int", ":returns:", ":rtype: str", ":ivar x:", ":raises E: when", "+--+\n|a |\n+--+",
                          "+--+\n|a", "====\nT\n====", "T\n=", "T\n---\n", "* item", "  indented", "::", "[1]_", ".. [1] note",
@@ -1323,7 +1333,8 @@ FRAGMENTS = {
                          ".. unicode:: 0x", ".. versionadded:: 1", ".. deprecated::", ":py:class:`a.b`", ":obj:`~x`", "`x <http://a>`_",
                          "`x <y`_", "__ x", "anonymous__", ".. __: http://x", ".. table::\n\n   == ==\n   a  b", "A\n=\nB\n-\nC\n=\nD\n^\nE\n-",
                          ".. code-block:: python\n   :linenos:\n\n   x", ".. math::\n\n   \\frac", ">>> 1+", ".. |a| image:: x", "|a|",
-                         ".. date::", ":Author: me", ":param:", ":unknown field: v", "\\", "x\\", ".. admonition::", ".. figure:: a\n   :scale: x"],
+                         ".. date::", ":Author: me", ".. default-role:: literal", ".. figure:: d.png\n\n   .. default-role:: literal",
+                         ".. role:: custom(emphasis)", ":custom:`x`", ":param a: sep \x0c here", ":note: a \ufffe b", ":param:", ":unknown field: v", "\\", "x\\", ".. admonition::", ".. figure:: a\n   :scale: x"],
     "google": ["Args:", "    x (int): y", "  x: y", "Returns:", "    str: d", "Raises:", "    ValueError", "Attributes:", "Example::",
                "Note:", "Yields:", "Keyword Args:", "Args:\n x (list[int", "Todo:", "    * x", "Args:\n    *args: a\n    **kw: b",
                "Returns:\n  :class:`x`", "Warns:", "See Also:\n    f", "Args:\n\tx: tab", "Attributes:\n    x (`int): y", "Args:\n    x (int, optional", "Other Parameters:"],
@@ -1510,6 +1521,11 @@ REGRESSION_DOCS = [
     "int or ``a\xa0\xa0b``: the x",
     "The x.\n\n@type: L{int} or C{None}",
     "Unclosed `role\n\nand a \ufffe char",
+    "Split a text into pages.\n\n@param a: The separator, a form feed ('\x0c') by default.\n@return: The list of pages.",
+    "Split.\n\n:param a: sep \ufffe here\n:note: foo \uffff bar",
+    "Split.\n\nArgs:\n    a: The separator, a form feed ('\x0c') by default.",
+    "Summary.\n\n" + "x" * 10001,
+    "A diagram.\n\n.. figure:: diagram.png\n\n   .. default-role:: literal\n",
     "Doc.\n\n@param x the widget\n\nand a \ufffe char",
     "Summary with \ufffe char.\n\nBody.",
     "Summary with \x0c char.",
@@ -1524,6 +1540,8 @@ def gen_real_docstring(rng) -> Tuple[str, str]:
         return "epytext-warning-then-fatal", gen_epytext_warn_then_fatal(rng)
     if r < 0.16:
         return "section-headings", gen_heading_docstring(rng)
+    if r < 0.17:
+        return "long-line", rng.choice(["Summary.\n\n", "Decode.\n\nA payload::\n\n    ", ""]) + rng.choice("xQ ") * rng.choice([10001, 12000]) + rng.choice(["", "\n\nTail."])
     if r < 0.4:
         f = rng.choice(list(FRAGMENTS))
         return "fragments:" + f, gen_fragments(rng, f)
@@ -1538,7 +1556,7 @@ def gen_real_docstring(rng) -> Tuple[str, str]:
 
 # ------------------------------------------------------------------ real stream: run, observe the parameters, oracle
 
-BYST_REAL = "Bystander summary sentence.\n\nSecond paragraph of plain words."
+BYST_REAL = "Bystander summary sentence about `B`.\n\nSecond paragraph of plain words."
 
 
 @contextlib.contextmanager
@@ -1768,6 +1786,17 @@ def run_real_case(w: World, fmt: str, pt: int, x: int, doc: str, td: int, limit:
     req = request_of(ob.spec)
     line = "ok " + " ; ".join(outs) + canon_state(w, ob.descr_token, ob.pdname, only_report_errors=True)
     run_real_extras(w, x, trace, limit)
+    try:
+        from pydoctor import epydoc2stan as E
+        y = w.objs[BYSTANDER]
+        with quiet(), time_limit(limit):
+            before = flatten_safely(y.parsed_docstring.to_stan(y.docstring_linker))[0]
+            after = flatten_safely(E.parse_docstring(y, BYST_REAL, y).to_stan(y.docstring_linker))[0]
+        w.iso = (before or "", after or "")
+    except Hang:
+        raise
+    except Exception:
+        w.iso = None
     return req, line, trace, rec
 
 
@@ -1904,6 +1933,20 @@ def real_oracle(ctx: Ctx, w: World, fmt: str, pt: int, x: int, doc: str, td: int
     if any(t["op"] == "s" and t["obj"] == x and t["raised"] is None and t["tok"] == "sum=broken" for t in trace) and hold not in errs_now:
         fail("summary:render-failure-unreported", "the summary's renderer failed ('Broken description' is shown in the listings), the body "
              "rendered, and nothing was reported against the object (format_summary calls safe_to_stan with report=False)")
+    for t in shown:
+        if "broken" in t.get("fields", []):
+            fail("field:render-failure-text-lost", "the body of a field could not be rendered: the failure is reported, the field shows "
+                 "'Broken description' and its text appears nowhere on the page (Field.format's fallback is the BROKEN placeholder)")
+            break
+    if rec is not None and rec[0] == "ret" and fmt in "rgn" and any("line-length-limit" in e.descr() for e in rec[2]):
+        for t in shown:
+            if not t["flat_err"] and not (safe_text(t["stan"]) or "").strip():
+                fail("rst:line-length-limit:docstring-vanishes", "a line is longer than docutils' line_length_limit: docutils does not parse "
+                     "the docstring at all, pydoctor keeps the empty document — the problem is reported, nothing of the text is shown")
+                break
+    if w.iso is not None and w.iso[0] != w.iso[1]:
+        fail("isolation:failed-parse-leaks-into-next-docstring", "after this docstring was processed, another object's docstring (parsed afresh) "
+             "is rendered differently than before: docutils' role registry (default-role) is not restored when the parse fails")
     # section anchors: pairwise distinct in the body, and every link of the table of contents leads to one of them
     lastd = next((t for t in reversed(shown) if t["flat_err"] is None and not t["body"].startswith("pre:")), None)
     lastt = next((t for t in reversed(trace) if t["op"] == "t" and t["obj"] == x and t["stan"] is not None and not t["flat_err"]), None)
@@ -2035,6 +2078,70 @@ def builder_split_case(ctx: Ctx, fmt: str, doc: str, limit: float) -> None:
     ctx.count("builder:split-cases")
 
 
+def builder_redefined_case(ctx: Ctx, fmt: str, d1: str, d2: str, limit: float) -> None:
+    """a class defined twice in one module, both docstrings with a markup problem: each problem must be reported"""
+    from pydoctor import model, epydoc2stan as E
+    src = "class T:\n    %s\n\n\nclass T:\n    %s\n" % (repr(d1), repr(d2))
+    inp = {"kind": "builder-redefined", "fmt": fmt, "docs": [d1, d2]}
+    try:
+        with quiet() as buf, time_limit(limit):
+            sy = model.System()
+            sy.options.docformat = FMT_OF[fmt]
+            b = sy.systemBuilder(sy)
+            b.addModuleString(src, "sm")
+            b.buildModules()
+            for o in list(sy.allobjects.values()):
+                E.format_docstring(o)
+        lines = sorted({ln.split(":")[1] for ln in buf.getvalue().splitlines() if "bad docstring" in ln})
+    except Hang:
+        ctx.fail("hang:build", inp, "did not finish")
+        return
+    except Exception as e:
+        ctx.fail("build:raises:" + type(e).__name__, inp, "raised")
+        return
+    if len(lines) < 2:
+        ctx.fail("report:dedup-by-name:redefined-object-unreported", inp, "a class is defined twice in the module and both docstrings have a "
+                 "markup problem, but only line(s) %s are reported: reportErrors de-duplicates on fullName(), which the replaced "
+                 "definition still shares with its replacement when class docstrings are parsed" % ",".join(lines))
+    ctx.count("builder:redefined-cases")
+
+
+def include_blocking_case(ctx: Ctx, limit: float = 2.0) -> None:
+    """`.. include::` of a file that never delivers (a FIFO nobody writes to): file insertion is enabled"""
+    import os
+    import tempfile
+    from pydoctor import model, epydoc2stan as E
+    d = tempfile.mkdtemp(prefix="c08-fifo-")
+    path = os.path.join(d, "never")
+    os.mkfifo(path)
+    doc = "Intro.\n\n.. include:: %s\n" % path
+    try:
+        sy = model.System()
+        sy.options.docformat = "restructuredtext"
+        with quiet():
+            b = sy.systemBuilder(sy)
+            b.addModuleString("def f(): pass\n", "sm")
+            b.buildModules()
+        o = sy.allobjects["sm.f"]
+        o.docstring = doc
+        try:
+            with quiet(), time_limit(limit):
+                E.format_docstring(o)
+        except Hang:
+            ctx.fail("hang:rst-include-blocking-file", {"kind": "include-fifo", "doc": "Intro.\n\n.. include:: <FIFO>"},
+                     "`.. include:: <path>` of a file that blocks (a FIFO, /dev/stdin) or never ends (/dev/zero) is followed: docutils' "
+                     "file insertion is enabled, format_docstring does not return")
+        except Exception:
+            pass
+    finally:
+        try:
+            os.unlink(path)
+            os.rmdir(d)
+        except OSError:
+            pass
+    ctx.count("builder:include-fifo")
+
+
 def surrogate_case(ctx: Ctx, fmt: str, pt: int, doc: str, limit: float) -> None:
     builder_case(ctx, fmt, pt, doc, limit)
 
@@ -2145,7 +2252,7 @@ def run(ctx: Ctx) -> None:
     ctx.compare("fault-injection~Docstring.run", reqs, impls, pay)
     ctx.exhaustive = True
     # ---- (b) real parsers
-    nstr = 350 if ctx.quick else 850
+    nstr = 260 if ctx.quick else 800
     limit = 8.0 if ctx.quick else 20.0     # per entry-point call; a case stops at its first hang
     max_hangs = 3                            # after that the violation is established: do not burn the tier's budget
     hangs = 0
@@ -2209,6 +2316,12 @@ def run(ctx: Ctx) -> None:
                 continue
             builder_case(ctx, fmt, (n + fi) % 2, doc, limit)
             ctx.case("builder %s %r" % (fmt, doc), True, None)
+    for fmt, d1, d2 in (("e", "Provisional, see L{open_transport.", "The one everybody uses. Call B{close when done."),
+                        ("r", "Provisional, see `open_transport.", "The one everybody uses, *unclosed emphasis."),
+                        ("e", "Fine first definition.", "Second one with B{trouble.")):
+        builder_redefined_case(ctx, fmt, d1, d2, limit) if "Fine" not in d1 else None
+        ctx.case("builder-redefined %s" % fmt, True, None)
+    include_blocking_case(ctx)
     for fmt, doc in SPLIT_DOCS:
         builder_split_case(ctx, fmt, doc, limit)
         ctx.case("builder-split %s %r" % (fmt, doc), True, None)
@@ -2249,6 +2362,14 @@ def replay(ctx: Ctx, obj) -> int:
         print("impl   :", impl)
         if verdict:
             ctx.fail(verdict[0], inp, verdict[1])
+    elif inp.get("kind") == "builder-redefined":
+        n0 = len(ctx.failures)
+        builder_redefined_case(ctx, inp["fmt"], inp["docs"][0], inp["docs"][1], 20.0)
+        req = None
+    elif inp.get("kind") == "include-fifo":
+        n0 = len(ctx.failures)
+        include_blocking_case(ctx)
+        req = None
     elif inp.get("kind") == "builder-split":
         n0 = len(ctx.failures)
         builder_split_case(ctx, inp["fmt"], ast.literal_eval(inp["doc_repr"]), 20.0)
